@@ -39,7 +39,14 @@ import (
 // ---------------------------------------------------------------- histories
 
 type hist struct {
-	id     string
+	id string
+	// scen: "" = one file (1_a.sql), one failure; "double" = the same file fails twice (at k+1, then, after
+	// the file became mid, at k2+1) before the edit; "nonlinear" = 1_a.sql (complete) and 3_c.sql (fails at
+	// k+1); with the edit of 3_c.sql a file 2_b.sql is added below it and the following runs use
+	// --exec-order non-linear: 2_b.sql runs first, the partially applied file second.
+	scen   string
+	mid    []int // double: the file at the second attempt (a tail edit of old)
+	k2     int   // double: the second attempt stops at statement k2+1 of mid
 	n, k   int   // the original file has statements 1..n; run 1 stops at statement k+1
 	old    []int // statement ids of the original file
 	new    []int // statement ids after the edit
@@ -51,11 +58,59 @@ type hist struct {
 }
 
 func (h hist) desc() string {
-	return fmt.Sprintf("old=%v fails-at=%d edit=%s new=%v tx-mode=%s second-file=%v fault-run1=%q fault-run2=%q",
+	s := fmt.Sprintf("old=%v fails-at=%d edit=%s new=%v tx-mode=%s second-file=%v fault-run1=%q fault-run2=%q",
 		h.old, h.k+1, h.edit, h.new, h.mode2, h.second, h.fault1, h.fault2)
+	switch h.scen {
+	case "double":
+		s = fmt.Sprintf("scenario=double-failure second-attempt-file=%v fails-at=%d ", h.mid, h.k2+1) + s
+	case "nonlinear":
+		s = "scenario=non-linear (1_a.sql applied, 3_c.sql partial, 2_b.sql added with the edit, --exec-order non-linear) " + s
+	}
+	return s
 }
 
-const secondStmt = 9
+// ver / mainFile: the edited file. base: index of the run that precedes the resuming run.
+// ref: the statements the stored partial hashes were computed from.
+func (h hist) ver() string {
+	if h.scen == "nonlinear" {
+		return "3"
+	}
+	return "1"
+}
+
+func (h hist) mainFile() string {
+	if h.scen == "nonlinear" {
+		return "3_c.sql"
+	}
+	return "1_a.sql"
+}
+
+func (h hist) base() int {
+	if h.scen == "double" {
+		return 1
+	}
+	return 0
+}
+
+func (h hist) ref() []int {
+	if h.scen == "double" {
+		return h.mid
+	}
+	return h.old
+}
+
+func (h hist) order() string {
+	if h.scen == "nonlinear" {
+		return "non-linear"
+	}
+	return "linear"
+}
+
+const (
+	secondStmt = 9  // the statement of a following file 2_b.sql (scen "")
+	firstStmt  = 51 // nonlinear: the statement of 1_a.sql
+	addedStmt  = 61 // nonlinear: the statement of the file 2_b.sql added out of order
+)
 
 func stmtText(id int) string { return fmt.Sprintf("INSERT INTO journal VALUES (%d);", id) }
 
@@ -68,9 +123,12 @@ func content(ids []int) string {
 }
 
 func (h hist) files(ids []int) map[string]string {
-	m := map[string]string{"1_a.sql": content(ids)}
+	m := map[string]string{h.mainFile(): content(ids)}
 	if h.second {
 		m["2_b.sql"] = content([]int{secondStmt})
+	}
+	if h.scen == "nonlinear" {
+		m["1_a.sql"] = content([]int{firstStmt})
 	}
 	return m
 }
@@ -268,9 +326,17 @@ func faultSpec(f string) string {
 	return re + f[1:]
 }
 
+// leanEnv: Go runtime settings of the child process only (fewer threads, no GC cycles); they halve
+// the start-up cost of the 54 MB binary and do not change what it does.
+var leanEnv = []string{"GOMAXPROCS=1", "GOGC=off"}
+
+func runCLI(tmp string, env []string, args ...string) clirun.Result {
+	return clirun.Run(tmp, append(append([]string{}, leanEnv...), env...), args...)
+}
+
 // apply runs `atlas migrate apply`. With useFault the database is opened through the
 // sqlitefault:// scheme and the calls that reached the driver are read back from its log.
-func apply(tmp, db, mdir, mode, fault string, useFault bool) (runObs, error) {
+func apply(tmp, db, mdir, mode, order, fault string, useFault bool) (runObs, error) {
 	before, err := readJournal(db)
 	if err != nil {
 		return runObs{}, err
@@ -286,7 +352,11 @@ func apply(tmp, db, mdir, mode, fault string, useFault bool) (runObs, error) {
 			env = append(env, "VERIF_SQL_FAULT="+faultSpec(fault))
 		}
 	}
-	r := clirun.Run(tmp, env, "migrate", "apply", "--dir", "file://"+mdir, "--url", scheme+db, "--tx-mode", mode, "--allow-dirty")
+	args := []string{"migrate", "apply", "--dir", "file://" + mdir, "--url", scheme + db, "--tx-mode", mode, "--allow-dirty"}
+	if order != "linear" {
+		args = append(args, "--exec-order", order)
+	}
+	r := runCLI(tmp, env, args...)
 	o := runObs{outcome: classify(r), exit: r.Exit, stderr: r.Stderr}
 	after, err := readJournal(db)
 	if err != nil {
@@ -342,10 +412,16 @@ type result struct {
 	hashOK bool
 }
 
-// stream of run 1 of the cli stage (no storage faults): ReadRevisions x2, ReadRevision,
-// WriteRevision, then (ExecContext, WriteRevision) x k, and the failing ExecContext.
-func predictedStopAt(k int) string {
-	return strings.Repeat("0", 3+1+2*k) + "1"
+// Fault streams of the cli stage (no storage faults; only the statement the trigger refuses fails):
+// a run starts with ReadRevisions x2; every file is ReadRevision, WriteRevision, then
+// (ExecContext, WriteRevision) per statement that succeeds, then the failing ExecContext
+// or the final WriteRevision.
+func fileStream(nOK int, fails bool) string {
+	s := "00" + strings.Repeat("00", nOK)
+	if fails {
+		return s + "1"
+	}
+	return s + "0"
 }
 
 func dirTokens(mdir string) ([]string, error) {
@@ -390,16 +466,25 @@ func runHist(h hist, useFault bool) (res result) {
 	defer os.RemoveAll(tmp)
 	db := filepath.Join(tmp, "t.db")
 	mdir := filepath.Join(tmp, "m")
-	// The failure of run 1 is a property of the database, not of the file: a trigger refuses
-	// the row of statement k+1. It is dropped ("the operator fixed the database") before run 2.
-	if err := clirun.Exec(db, "CREATE TABLE journal (id INTEGER)",
-		fmt.Sprintf("CREATE TRIGGER stop BEFORE INSERT ON journal WHEN NEW.id = %d BEGIN SELECT RAISE(ABORT, 'stop'); END", h.old[h.k])); err != nil {
-		res.err = err
-		return
+	fail := func(e error) result { res.err = e; return res }
+	// A failure is a property of the database, not of the file: a trigger refuses the row of one
+	// statement. It is dropped ("the operator fixed the database") before the next attempt.
+	trigger := func(id int) error {
+		return clirun.Exec(db, fmt.Sprintf("CREATE TRIGGER stop BEFORE INSERT ON journal WHEN NEW.id = %d BEGIN SELECT RAISE(ABORT, 'stop'); END", id))
 	}
-	if err := clirun.WriteDir(mdir, h.files(h.old)); err != nil {
-		res.err = err
-		return
+	// rewrite the edited file and re-hash the directory with the CLI
+	rewrite := func(ids []int) error {
+		c := content(ids)
+		if len(ids) == 0 {
+			c = "-- emptied\n" // a file without statements: keep the file (a comment only)
+		}
+		if err := os.WriteFile(filepath.Join(mdir, h.mainFile()), []byte(c), 0o644); err != nil {
+			return err
+		}
+		if hr := runCLI(tmp, nil, "migrate", "hash", "--dir", "file://"+mdir); hr.Exit != 0 {
+			return fmt.Errorf("migrate hash failed: %s", hr.Stderr)
+		}
+		return nil
 	}
 	bitsOf := func(o runObs, predicted string) string {
 		b := predicted
@@ -411,67 +496,85 @@ func runHist(h hist, useFault bool) (res result) {
 		}
 		return b
 	}
-	addRun := func(mode string, o runObs, predicted string) bool {
+	addRun := func(mode, order string, o runObs, predicted string) bool {
 		dt, err := dirTokens(mdir)
 		if err != nil {
 			res.err = err
 			return false
 		}
-		res.toks = append(res.toks, mode, bitsOf(o, predicted))
+		res.toks = append(res.toks, mode, order, bitsOf(o, predicted))
 		res.toks = append(res.toks, dt...)
 		res.runs = append(res.runs, o)
 		return true
 	}
-	// run 1
-	o, err := apply(tmp, db, mdir, "none", h.fault1, useFault)
+	if err := clirun.Exec(db, "CREATE TABLE journal (id INTEGER)"); err != nil {
+		return fail(err)
+	}
+	if err := clirun.WriteDir(mdir, h.files(h.old)); err != nil {
+		return fail(err)
+	}
+	// run 1: stops at statement k+1 (tx-mode none: only then a partial revision exists)
+	if err := trigger(h.old[h.k]); err != nil {
+		return fail(err)
+	}
+	o, err := apply(tmp, db, mdir, "none", "linear", h.fault1, useFault)
 	if err != nil {
-		res.err = err
+		return fail(err)
+	}
+	pred := "00"
+	if h.scen == "nonlinear" {
+		pred += fileStream(1, false)
+	}
+	if !addRun("none", "linear", o, pred+fileStream(h.k, true)) {
 		return
 	}
-	if !addRun("none", o, predictedStopAt(h.k)) {
-		return
-	}
-	// fix the database, edit the file, re-hash with the CLI
 	if err := clirun.Exec(db, "DROP TRIGGER stop"); err != nil {
-		res.err = err
-		return
+		return fail(err)
 	}
-	if len(h.new) == 0 {
-		// a file without statements: keep the file (a comment only)
-		err = os.WriteFile(filepath.Join(mdir, "1_a.sql"), []byte("-- emptied\n"), 0o644)
-	} else {
-		err = os.WriteFile(filepath.Join(mdir, "1_a.sql"), []byte(content(h.new)), 0o644)
+	if h.scen == "double" {
+		// second attempt on the (tail-edited) file: applies statements k+1..k2, stops at k2+1
+		if err := rewrite(h.mid); err != nil {
+			return fail(err)
+		}
+		if err := trigger(h.mid[h.k2]); err != nil {
+			return fail(err)
+		}
+		o, err := apply(tmp, db, mdir, "none", "linear", "", useFault)
+		if err != nil {
+			return fail(err)
+		}
+		if !addRun("none", "linear", o, "00"+fileStream(h.k2-h.k, true)) {
+			return
+		}
+		if err := clirun.Exec(db, "DROP TRIGGER stop"); err != nil {
+			return fail(err)
+		}
 	}
-	if err != nil {
-		res.err = err
-		return
+	if h.scen == "nonlinear" {
+		if err := os.WriteFile(filepath.Join(mdir, "2_b.sql"), []byte(content([]int{addedStmt})), 0o644); err != nil {
+			return fail(err)
+		}
 	}
-	hr := clirun.Run(tmp, nil, "migrate", "hash", "--dir", "file://"+mdir)
-	res.hashOK = hr.Exit == 0
-	if !res.hashOK {
-		res.err = fmt.Errorf("migrate hash failed: %s", hr.Stderr)
-		return
+	// the edit, re-hashed with `atlas migrate hash`
+	if err := rewrite(h.new); err != nil {
+		return fail(err)
 	}
-	// the resuming run and the runs after it (cli: one more; fault: two more)
-	last := 3
-	if useFault {
-		last = 4
-	}
-	for i := 2; i <= last; i++ {
+	res.hashOK = true
+	// the resuming run and one more (fault stage: the run after the fault is gone)
+	for i := 0; i < 2; i++ {
 		f := ""
-		if i == 2 {
+		if i == 0 {
 			f = h.fault2
 		}
-		o, err := apply(tmp, db, mdir, h.mode2, f, useFault)
+		o, err := apply(tmp, db, mdir, h.mode2, h.order(), f, useFault)
 		if err != nil {
-			res.err = err
-			return
+			return fail(err)
 		}
-		if !addRun(h.mode2, o, "") {
+		if !addRun(h.mode2, h.order(), o, "") {
 			return
 		}
 	}
-	sr := clirun.Run(tmp, nil, "migrate", "status", "--dir", "file://"+mdir, "--url", "sqlite://"+db)
+	sr := runCLI(tmp, nil, "migrate", "status", "--dir", "file://"+mdir, "--url", "sqlite://"+db)
 	all := sr.Stdout + sr.Stderr
 	switch {
 	case strings.Contains(all, "panic:") || strings.Contains(all, "goroutine "):
@@ -520,10 +623,12 @@ func isPrefix(p, l []int) bool { return len(p) <= len(l) && eqInts(p, l[:len(p)]
 
 func failed(o runObs) bool { return o.exit != 0 }
 
-// oracle states C12 on what the real binary did. Everything is relative to the
-// revision row as it was read from the database before the run (kp = its applied).
+// oracle states C12 on what the real binary did. Everything is relative to the revision
+// row as it was read from the database before the resuming run (kp = its applied) and to the
+// statements that were in the file when those kp statements were applied (ref).
 func oracle(w *out.W, r result) {
 	h, id := r.h, r.h.id
+	ver, base, ref := h.ver(), h.base(), h.ref()
 	bad := func(class, msg string) { w.Violation(id, class, msg+": "+h.desc()) }
 	for i, o := range r.runs {
 		if o.outcome == "panic" || o.exit == 2 && strings.Contains(o.stderr, "runtime error") {
@@ -534,6 +639,10 @@ func oracle(w *out.W, r result) {
 			bad("unexpected-error", fmt.Sprintf("apply run %d ended unexpectedly (%s)", i+1, o.outcome))
 			return
 		}
+		if failed(o) && o.exit != 1 {
+			bad("panic", fmt.Sprintf("apply run %d exited %d (a refused or failed run exits 1)", i+1, o.exit))
+			return
+		}
 	}
 	if r.status == "panic" {
 		bad("panic", "migrate status crashed")
@@ -542,64 +651,97 @@ func oracle(w *out.W, r result) {
 	r1 := r.runs[0]
 	if h.fault1 == "" {
 		// the setup: run 1 stops at statement k+1 with k statements applied and recorded
-		row, ok := r1.row("1")
-		if r1.outcome != "stmterr" || !eqInts(r1.delta, h.old[:h.k]) || !ok || row.applied != h.k || row.total != h.n || row.nhashes != h.k || !row.err {
-			bad("first-run-not-recorded", fmt.Sprintf("first run: outcome=%s journal=%v table=[%s], want stmterr, %v, 1:%d:%d:%d:1", r1.outcome, r1.delta, r1.table(), h.old[:h.k], h.k, h.n, h.k))
+		want1 := h.old[:h.k]
+		if h.scen == "nonlinear" {
+			want1 = append([]int{firstStmt}, want1...)
+		}
+		row, ok := r1.row(ver)
+		if r1.outcome != "stmterr" || !eqInts(r1.delta, want1) || !ok || row.applied != h.k || row.total != h.n || row.nhashes != h.k || !row.err {
+			bad("first-run-not-recorded", fmt.Sprintf("first run: outcome=%s journal=%v table=[%s], want stmterr, %v, %s:%d:%d:%d:1", r1.outcome, r1.delta, r1.table(), want1, ver, h.k, h.n, h.k))
 			return
+		}
+		if h.scen == "double" {
+			// the second attempt resumes at k+1, applies up to k2 and records exactly that
+			ra := r.runs[1]
+			row, ok := ra.row(ver)
+			if ra.outcome != "stmterr" || !eqInts(ra.delta, h.mid[h.k:h.k2]) || !ok || row.applied != h.k2 || row.total != len(h.mid) || row.nhashes != h.k2 || !row.err {
+				bad("second-failure-not-recorded", fmt.Sprintf("second attempt: outcome=%s journal=%v table=[%s], want stmterr, %v, %s:%d:%d:%d:1", ra.outcome, ra.delta, ra.table(), h.mid[h.k:h.k2], ver, h.k2, len(h.mid), h.k2))
+				return
+			}
 		}
 	} else if !failed(r1) && r1.faultOn {
 		bad("fault-swallowed", "first run succeeded although a revision read/write failed")
 		return
 	}
 	// state before the resuming run
-	row0, has0 := r1.row("1")
+	before := r.runs[base]
+	row0, has0 := before.row(ver)
 	kp := 0
 	if has0 {
 		kp = row0.applied
 	}
 	if has0 && row0.nhashes != kp && row0.applied != row0.total {
-		bad("hashes-not-recorded", fmt.Sprintf("after run 1 the revision has applied=%d but %d partial hashes", kp, row0.nhashes))
+		bad("hashes-not-recorded", fmt.Sprintf("before the resuming run the revision has applied=%d but %d partial hashes", kp, row0.nhashes))
 		return
 	}
-	changed := kp >= 1 && !isPrefix(h.old[:kp], h.new)
+	changed := kp >= 1 && !isPrefix(ref[:kp], h.new)
+	var extraFirst []int // statements of other files the resuming run executes before the edited file
+	if h.scen == "nonlinear" {
+		extraFirst = []int{addedStmt}
+	}
 	wantTail := func(k int) []int {
-		t := append([]int{}, h.new[k:]...)
+		t := append(append([]int{}, extraFirst...), h.new[k:]...)
 		if h.second {
 			t = append(t, secondStmt)
 		}
 		return t
 	}
 	if changed {
-		// refused; nothing executed; the stored revision is what it was -- in every run, with or without fault
-		prev := r1
-		for i := 1; i < len(r.runs); i++ {
+		// refused; nothing of the file executed; the stored revision is what it was -- in every run, with or without fault
+		firstDiff := 0
+		for firstDiff < len(h.new) && h.new[firstDiff] == ref[firstDiff] {
+			firstDiff++
+		}
+		prev := before
+		for i := base + 1; i < len(r.runs); i++ {
 			o := r.runs[i]
-			if len(o.delta) != 0 {
-				bad("executed-on-refuse", fmt.Sprintf("apply run %d executed %v although the applied part (first %d statements) was edited", i+1, o.delta, kp))
+			var wantDelta []int
+			if i == base+1 {
+				wantDelta = extraFirst
+			}
+			if !eqInts(o.delta, wantDelta) {
+				bad("executed-on-refuse", fmt.Sprintf("apply run %d executed %v (want %v) although the applied part (first %d statements) was edited", i+1, o.delta, wantDelta, kp))
 				return
 			}
 			if !failed(o) {
 				bad("not-refused", fmt.Sprintf("apply run %d exited 0 (%s) although the applied part was edited", i+1, o.outcome))
 				return
 			}
-			fault := i == 1 && h.fault2 != "" && o.faultOn
+			fault := i == base+1 && h.fault2 != "" && o.faultOn
 			if !fault && !strings.HasPrefix(o.outcome, "history:") {
 				bad("not-refused", fmt.Sprintf("apply run %d ended with %s, want the history-changed error", i+1, o.outcome))
 				return
 			}
 			if strings.HasPrefix(o.outcome, "history:") {
 				n, _ := strconv.Atoi(strings.TrimPrefix(o.outcome, "history:"))
-				if n < 1 || n > kp {
-					bad("not-refused", fmt.Sprintf("apply run %d reports statement %d as changed, applied are 1..%d", i+1, n, kp))
+				if n != firstDiff+1 {
+					bad("wrong-attribution", fmt.Sprintf("apply run %d reports statement %d as changed, the first edited applied statement is %d (applied are 1..%d)", i+1, n, firstDiff+1, kp))
+					return
 				}
 			}
-			if len(o.rows) != len(prev.rows) {
-				bad("history-touched", fmt.Sprintf("apply run %d changed the revisions table on refusal: [%s] -> [%s]", i+1, prev.table(), o.table()))
-				return
+			for _, pr := range prev.rows {
+				if or, ok := o.row(pr.version); !ok || or.sig != pr.sig {
+					bad("history-touched", fmt.Sprintf("apply run %d rewrote a revision on refusal: %q -> [%s]", i+1, pr.sig, o.table()))
+					return
+				}
 			}
-			for j := range o.rows {
-				if o.rows[j].sig != prev.rows[j].sig {
-					bad("history-touched", fmt.Sprintf("apply run %d rewrote the revision on refusal: %q -> %q", i+1, prev.rows[j].sig, o.rows[j].sig))
+			for _, or := range o.rows {
+				if _, ok := prev.row(or.version); ok {
+					continue
+				}
+				// a new revision: only that of the out-of-order file that ran (completely) before the refused one
+				if !(h.scen == "nonlinear" && i == base+1 && or.version == "2" && or.applied == 1 && or.total == 1 && !or.err && or.nhashes == 0) {
+					bad("history-touched", fmt.Sprintf("apply run %d added a revision on refusal: [%s] -> [%s]", i+1, prev.table(), o.table()))
 					return
 				}
 			}
@@ -611,8 +753,8 @@ func oracle(w *out.W, r result) {
 		return
 	}
 	// the applied part is intact (tail edit or none): resumes at statement kp+1
-	r2 := r.runs[1]
-	settled := 2 // index of the run that must find nothing to do
+	r2 := r.runs[base+1]
+	settled := base + 2 // index of the run that must find nothing to do
 	if h.fault2 != "" && r2.faultOn {
 		// storage fault during the resuming run: it fails without executing anything it should not,
 		// and the stored revision is not replaced by a fresh one
@@ -624,7 +766,7 @@ func oracle(w *out.W, r result) {
 			bad("wrong-tail", fmt.Sprintf("resuming run with a storage fault executed %v, want a prefix of %v", r2.delta, wantTail(kp)))
 			return
 		}
-		row2, has2 := r2.row("1")
+		row2, has2 := r2.row(ver)
 		// tx-mode file: one transaction per file. Either the failing file is the first one (everything is
 		// rolled back: no statement left behind, revision untouched) or the first file was committed as a
 		// whole (its complete tail ran, its revision is complete) and the following file was rolled back.
@@ -642,7 +784,7 @@ func oracle(w *out.W, r result) {
 			}
 		}
 		if has0 && (!has2 || row2.applied < kp || row2.applied > kp+len(r2.delta)) {
-			bad("revision-replaced", fmt.Sprintf("storage fault during the resuming run: revision went from [%s] to [%s] with %v executed", r1.table(), r2.table(), r2.delta))
+			bad("revision-replaced", fmt.Sprintf("storage fault during the resuming run: revision went from [%s] to [%s] with %v executed", before.table(), r2.table(), r2.delta))
 			return
 		}
 		if h.mode2 == "file" && !file1Committed && has0 && row2.sig != row0.sig {
@@ -654,7 +796,7 @@ func oracle(w *out.W, r result) {
 		if has2 {
 			kp2 = row2.applied
 		}
-		r3 := r.runs[2]
+		r3 := r.runs[base+2]
 		want := append([]int{}, h.new[kp2:]...)
 		if row22, has22 := r2.row("2"); h.second && !(has22 && row22.applied == 1) {
 			want = append(want, secondStmt)
@@ -667,7 +809,7 @@ func oracle(w *out.W, r result) {
 			bad("rev-incomplete", fmt.Sprintf("after the resume the revisions are [%s], want applied=total=%d without error", r3.table(), len(h.new)))
 			return
 		}
-		settled = 3
+		settled = base + 3
 	} else {
 		if r2.outcome != "done" {
 			bad("not-resumed", fmt.Sprintf("the applied part (%d statements) is intact but apply ended with %s", kp, r2.outcome))
@@ -710,21 +852,24 @@ func contains(l []int, x int) bool {
 // complete: every file has a revision with applied = total = its statement count and no error
 // (kp = statements recorded as applied before the resume).
 func complete(o runObs, h hist, kp int, strictHashes bool) bool {
-	want := 1
+	want := map[string]int{h.ver(): len(h.new)}
 	if h.second {
-		want = 2
+		want["2"] = 1
 	}
-	if len(o.rows) != want {
+	if h.scen == "nonlinear" {
+		want["1"], want["2"] = 1, 1
+	}
+	if len(o.rows) != len(want) {
 		return false
 	}
 	for _, r := range o.rows {
-		n := len(h.new)
-		if r.version == "2" {
-			n = 1
+		n, ok := want[r.version]
+		if !ok {
+			return false
 		}
 		// the error text of the failed attempt is cleared by the first statement that succeeds;
 		// when the edit removed the whole tail nothing runs and the (complete) revision keeps it
-		errLeft := r.err && !(r.version == "1" && len(h.new) == kp)
+		errLeft := r.err && !(r.version == h.ver() && len(h.new) == kp)
 		if r.applied != n || r.total != n || errLeft || strictHashes && r.nhashes != 0 {
 			return false
 		}
@@ -745,11 +890,83 @@ func genCLI(tier string) []hist {
 						if second == 1 && (n > 3 || mode == "file" && tier != "thorough" && n > 2) {
 							continue
 						}
-						if tier != "thorough" && n == 4 && mode == "file" && k%2 == 0 {
-							continue // quick: tx-mode file on 4-statement files only for k = 1, 3
+						if tier != "thorough" && n == 4 && (mode == "file" || k == 0) {
+							continue // quick: 4-statement files under tx-mode none with k >= 1 only
 						}
 						hs = append(hs, hist{n: n, k: k, old: seq(n), new: e.res, edit: e.kind, mode2: mode, second: second == 1})
 					}
+				}
+			}
+		}
+	}
+	hs = append(hs, genDouble(tier)...)
+	hs = append(hs, genNonLinear(tier)...)
+	return hs
+}
+
+// genDouble: the same file fails partially twice. Attempt 1 stops at k+1 (k >= 1); the tail is left as it is,
+// or its failing statement is replaced, or a statement is inserted before it (mid); attempt 2 applies
+// statements k+1..k2 of mid and stops at k2+1; then every edit of mid: of a statement applied by attempt 1
+// (index < k), by attempt 2 (k <= index < k2) -- both "prefix" -- or of the tail only, or none.
+func genDouble(tier string) []hist {
+	var hs []hist
+	maxN := 3
+	if tier == "thorough" {
+		maxN = 4
+	}
+	for n := 3; n <= maxN; n++ {
+		old := seq(n)
+		for k := 1; k+1 < n; k++ {
+			mids := [][]int{old}
+			ch := append([]int{}, old...)
+			ch[k] = 41
+			mids = append(mids, ch)
+			mids = append(mids, append(append(append([]int{}, old[:k]...), 42), old[k:]...))
+			for mi, mid := range mids {
+				for k2 := k + 1; k2 < len(mid); k2++ {
+					for _, e := range edits(mid, k2) {
+						for _, mode := range []string{"none", "file"} {
+							if tier != "thorough" && mode == "file" && !(mi == 1 && strings.Contains(e.kind, "change")) {
+								continue
+							}
+							kind := e.kind
+							if strings.HasPrefix(kind, "prefix-") {
+								// which attempt applied the first statement the edit touches
+								i := 0
+								for i < len(e.res) && i < len(mid) && e.res[i] == mid[i] {
+									i++
+								}
+								if i < k {
+									kind += "(attempt1)"
+								} else {
+									kind += "(attempt2)"
+								}
+							}
+							hs = append(hs, hist{scen: "double", n: n, k: k, old: old, mid: mid, k2: k2, new: e.res, edit: kind, mode2: mode})
+						}
+					}
+				}
+			}
+		}
+	}
+	return hs
+}
+
+// genNonLinear: the refused file is not the first file of the run (see hist.scen).
+func genNonLinear(tier string) []hist {
+	var hs []hist
+	maxN := 3
+	if tier == "thorough" {
+		maxN = 4
+	}
+	for n := 2; n <= maxN; n++ {
+		for k := 1; k < n; k++ {
+			for _, e := range edits(seq(n), k) {
+				for _, mode := range []string{"none", "file"} {
+					if tier != "thorough" && mode == "file" && n > 2 {
+						continue
+					}
+					hs = append(hs, hist{scen: "nonlinear", n: n, k: k, old: seq(n), new: e.res, edit: e.kind, mode2: mode})
 				}
 			}
 		}
@@ -784,6 +1001,9 @@ func genFault(tier string) []hist {
 			for _, e := range edits(seq(n), k) {
 				if !keep(e.kind, n, k) {
 					continue
+				}
+				if tier != "thorough" && k == 0 && !(e.kind == "none" || e.kind == "tail-change@0" || e.kind == "tail-truncate@0") {
+					continue // nothing applied yet: every edit is a tail edit; quick keeps three
 				}
 				for _, mode := range []string{"none", "file"} {
 					for second := 0; second < 2; second++ {
@@ -846,7 +1066,7 @@ func main() {
 	case "fault":
 		hs = genFault(*tier)
 		useFault = true
-		w.Rule = "exhaustive: histories as in stage cli (n<=3, one edit of each kind per area) x a storage fault (database is locked) at the i-th SELECT / j-th upsert of atlas_schema_revisions, for every i and j reached, during the resuming run (tx-mode none and file) or during the first run; then apply, apply, status without fault. Non-trivial = the fault fired; distinct by (n,k,new,mode,second,fault)"
+		w.Rule = "exhaustive: histories as in stage cli (n<=3, one edit of each kind per area) x a storage fault (database is locked) at the i-th SELECT / j-th upsert of atlas_schema_revisions, for every i and j reached, during the resuming run (tx-mode none and file) or during the first run; then apply and status without fault. Non-trivial = the fault fired; distinct by (n,k,new,mode,second,fault)"
 	default:
 		fmt.Fprintln(os.Stderr, "unknown mode")
 		os.Exit(2)
@@ -858,7 +1078,7 @@ func main() {
 		// the binary under test must carry the add-only hook cmd/atlas/verif_sqlfault.go
 		tmp, _ := os.MkdirTemp(scratch(), "vrsp")
 		os.MkdirAll(filepath.Join(tmp, "m"), 0o755)
-		pr := clirun.Run(tmp, nil, "migrate", "apply", "--dir", "file://"+filepath.Join(tmp, "m"), "--url", "sqlitefault://"+filepath.Join(tmp, "p.db"))
+		pr := runCLI(tmp, nil, "migrate", "apply", "--dir", "file://"+filepath.Join(tmp, "m"), "--url", "sqlitefault://"+filepath.Join(tmp, "p.db"))
 		os.RemoveAll(tmp)
 		if strings.Contains(pr.Stderr+pr.Stdout, "unknown driver") {
 			w.Violation("fault-0", "hook-missing", "the CLI under test does not know the sqlitefault:// scheme: add notes/hooks/cmd_atlas_verif_sqlfault.go as cmd/atlas/verif_sqlfault.go to the atlas tree (add-only, //go:build verif)")
@@ -871,9 +1091,10 @@ func main() {
 		i := i
 		jobs[i] = func() { results[i] = runHist(hs[i], useFault) }
 	}
-	nw := runtime.NumCPU()
-	if nw > 16 {
-		nw = 16
+	// the work is process starts of the CLI (mostly waiting): two per core
+	nw := 2 * runtime.NumCPU()
+	if nw > 32 {
+		nw = 32
 	}
 	clirun.Parallel(nw, jobs)
 	for _, r := range results {
@@ -882,15 +1103,18 @@ func main() {
 			w.Violation(h.id, "harness", "harness error: "+r.err.Error()+": "+h.desc())
 			continue
 		}
-		if useFault && (h.fault1 != "" && !r.runs[0].faultOn || h.fault2 != "" && !r.runs[1].faultOn) {
+		if useFault && (h.fault1 != "" && !r.runs[0].faultOn || h.fault2 != "" && !r.runs[h.base()+1].faultOn) {
 			w.Count("fault:not-reached")
 			continue // the run makes fewer storage calls than the fault position: same as the fault-free history
 		}
 		w.Case(h.id, r.caseLine(), r.obsLines())
 		w.Count("edit:" + strings.SplitN(h.edit, "@", 2)[0])
+		if h.scen != "" {
+			w.Count("scenario:" + h.scen)
+		}
 		w.Count(fmt.Sprintf("k:%d", h.k))
 		w.Count("mode:" + h.mode2)
-		w.Count("run2:" + strings.SplitN(r.runs[1].outcome, ":", 2)[0])
+		w.Count("resuming-run:" + strings.SplitN(r.runs[h.base()+1].outcome, ":", 2)[0])
 		if useFault {
 			f := h.fault2
 			if h.fault1 != "" {
@@ -899,7 +1123,7 @@ func main() {
 			w.Count("fault:" + f[:len(f)-2])
 			w.NonTrivial(fmt.Sprintf("%d|%d|%v|%s|%v|%s|%s", h.n, h.k, h.new, h.mode2, h.second, h.fault1, h.fault2))
 		} else if h.k >= 1 && h.edit != "none" {
-			w.NonTrivial(fmt.Sprintf("%d|%d|%v|%s|%v", h.n, h.k, h.new, h.mode2, h.second))
+			w.NonTrivial(fmt.Sprintf("%s|%d|%d|%v|%d|%v|%s|%v", h.scen, h.n, h.k, h.mid, h.k2, h.new, h.mode2, h.second))
 		}
 		oracle(w, r)
 	}
